@@ -1370,6 +1370,11 @@ func (pc *PartitionContext) handleForeignAllocation(allocationKey, applicationID
 		return false, false, fmt.Errorf("failed to find node %s for allocation %s", nodeID, allocationKey)
 	}
 
+	// a negative quantity would lower the occupied resources of the node and make it look larger than it is
+	if !resources.StrictlyGreaterThanOrEquals(alloc.GetAllocatedResource(), nil) {
+		return false, false, fmt.Errorf("foreign allocation %s contains negative resources", allocationKey)
+	}
+
 	exists := pc.getOrStoreForeignAlloc(alloc)
 	if !exists {
 		log.Log(log.SchedPartition).Info("adding new foreign allocation",
